@@ -192,6 +192,37 @@ func FromRoot(root *ggql.Root, directiveNames []string) (*Schema, error) {
 		d.Args = as
 		s.Defs = append(s.Defs, d)
 	}
+	if len(s.Blocks) == 0 {
+		// no schema object among Root.Types(): the schema is the implicit one. Its operation root types are only reachable
+		// through introspection; names that are not the implicit defaults came from an "extend schema" block.
+		var res map[string]interface{}
+		func() {
+			defer func() { _ = recover() }() // a root without a resolver cannot answer requests: nothing to add then
+			res = root.ResolveString("{__schema{queryType{name} mutationType{name} subscriptionType{name}}}", "", nil)
+		}()
+		if data, _ := res["data"].(map[string]interface{}); data != nil {
+			if sc, _ := data["__schema"].(map[string]interface{}); sc != nil {
+				name := func(k string) string {
+					m, _ := sc[k].(map[string]interface{})
+					n, _ := m["name"].(string)
+					return n
+				}
+				blk := &SchemaBlock{Extend: true}
+				if n := name("queryType"); n != "" && n != "Query" {
+					blk.Query = n
+				}
+				if n := name("mutationType"); n != "" && n != "Mutation" {
+					blk.Mutation = n
+				}
+				if n := name("subscriptionType"); n != "" && n != "Subscription" {
+					blk.Subscription = n
+				}
+				if blk.Query != "" || blk.Mutation != "" || blk.Subscription != "" {
+					s.Blocks = append(s.Blocks, blk)
+				}
+			}
+		}
+	}
 	return s, nil
 }
 
